@@ -221,6 +221,9 @@ def r9_angle_homogeneity(ctx):
 
 def run(ctx):
     rep = ctx.rep
+    rep.rule("C08.R14", "a force element's Jacobian routines differentiate the kinematics of the SAME material point (xi, B_r_CP) its force routine uses (h = F . J_P(P), h_q = F . J_P_q(P))", 4)
+    _owners = [(ci.qual, ci.rel, ci.node) for ci in ctx.model.all_classes() if ci.rel.startswith(("cardillo/forces/", "cardillo/interactions/"))]
+    protocol.point_argument_agreement(ctx, "C08.R14", _owners)
     rep.rule("C08.R10", "dependence monotonicity (K13) over every primal/derivative pair of K5: a stated derivative reads no datum its primal does not read", 30)
     from .. import depmono as _dm
     _dm.check_k5_pairs(ctx, "C08.R10", ['TwoPointInteraction', 'Revolute', 'KelvinVoigtElement', 'Spring', 'MaxwellElement', 'PDcontroller', 'PIDcontroller', 'Force', 'B_Force', 'Moment', 'B_Moment'])
@@ -425,4 +428,9 @@ MUTANTS += [
          old="        return np.einsum(\n            \"ijk,j->ik\", self.W_tau_q(t, q), self.la_tau(t, q, u)\n        ) + self.W_tau(t, q) @ self.la_tau_q(t, q, u)\n",
          new="        la_tau = self.la_tau(t, q, u)\n        if not np.any(la_tau):\n            return np.zeros((self._nu, self._nq))\n        return np.einsum(\"ijk,j->ik\", self.W_tau_q(t, q), la_tau) + self.W_tau(t, q) @ self.la_tau_q(t, q, u)\n",
          expect="C08.R13"),
+]
+
+MUTANTS += [
+    dict(id="c08-r14-seed", canary=True, what="[seeded by sub-agent] Force.__init__: the closure used by h_q (J_P_q) loses the offset B_r_CP of the point of attack", file='cardillo/forces/force.py',
+         old="        self.J_P_q = lambda t, q: subsystem.J_P_q(t, q, xi, B_r_CP)\n", new="        self.J_P_q = lambda t, q: subsystem.J_P_q(t, q, xi)\n", expect="C08.R14"),
 ]
